@@ -142,7 +142,25 @@ def build_impl(variant="asan"):
                 rc, out = run(["ninja", "-C", bdir, "vncserver", "vncclient"], timeout=1200)
             if rc != 0:
                 raise BuildError("implementation does not build (%s):\n%s" % (variant, out[-3000:]))
-        # the repo's cmake copies compile_commands.json into the source tree: undo that side effect
+        # a source edited while the build was running can leave an object that is newer than the edited
+        # file (ninja then believes it is up to date for ever): if the tree changed during the build,
+        # mark every source as new and build again
+        for _ in range(3):
+            h2 = repo_tree_hash()
+            if h2 == h:
+                break
+            h = h2
+            now = time.time()
+            for r in SRC_ROOTS:
+                for d, _, fs in os.walk(os.path.join(REPO, r)):
+                    for f in fs:
+                        try:
+                            os.utime(os.path.join(d, f), (now, now))
+                        except OSError:
+                            pass
+            rc, out = run(["ninja", "-C", bdir, "vncserver", "vncclient"], timeout=1200)
+            if rc != 0:
+                raise BuildError("implementation does not build (%s):\n%s" % (variant, out[-3000:]))
         with open(stamp, "w") as f:
             f.write(h)
         log("implementation (%s) built in %.1fs" % (variant, time.time() - t0))
@@ -172,6 +190,9 @@ def build_harness(name, sources, variant="asan", wraps=(), extra_cflags=(), extr
     for d in deps:
         key.update(open(d, "rb").read())
     key.update(repr((wraps, extra_cflags, extra_libs, client, server)).encode())
+    for lib in ("libvncserver.a", "libvncclient.a"):      # relink whenever the libraries were rebuilt
+        st = os.stat(os.path.join(bdir, lib))
+        key.update(("%s:%d:%d" % (lib, st.st_size, st.st_mtime_ns)).encode())
     stamp = exe + ".stamp"
     with Lock("harness_" + name + "_" + variant):
         if os.path.exists(exe) and os.path.exists(stamp) and open(stamp).read() == key.hexdigest():
